@@ -30,7 +30,9 @@ def texts(ctx):
     extra = ['-----BEGIN PGP SIGNATURE-----', 'a\n-----BEGIN PGP SIGNATURE-----\nb', '-----BEGIN PGP SIGNED MESSAGE-----\nHash: SHA1\n\nx',
              '- already escaped', '-- two', 'From me\nFrom you', 'trailing space \nand tab\t\nend ', 'x' * 10000, ('line\n' * 400),
              'crlf\r\nlines\r\n', 'no final newline', 'final newline\n', 'two final newlines\n\n', '\n\n\n', ' ', '\t',
-             'a\n\n\nb', '-', '- ', '-\n-', 'Hash: SHA256', '=abcd', '-----END PGP SIGNATURE-----']
+             'a\n\n\nb', '-', '- ', '-\n-', 'Hash: SHA256', '=abcd', '-----END PGP SIGNATURE-----',
+             'Hash: SHA512\n\nbody after a header-looking first line', 'Hash: SHA1\n\nHash: MD5\n\nx', 'Hash: SHA256\n', '\nHash: SHA256\n\ny',
+             'Comment: not a header\n\ntext', 'Hash: SHA256,SHA1\n\n-dash']
     out += extra
     for _ in range(30 if ctx.quick else 600):
         ln = ctx.rng.randrange(5, 60)
